@@ -429,6 +429,63 @@ fn attacker_case<const N: usize>(c: &mut Ctx, name: &str, k: usize) {
                     }
                 }
             }
+            // a message whose exponent x + sum y_i m_i is zero: the honest signature on it is (h, 1) with
+            // h != 1, which satisfies the relation and must verify (sigma2 may be the identity)
+            {
+                let j = (mi + rep) % N;
+                let mut mz = m.vals;
+                let inv = secrets.1[j].invert();
+                if bool::from(inv.is_some()) {
+                    let mut others = secrets.0;
+                    for i in 0..N {
+                        if i != j {
+                            others += secrets.1[i] * mz[i];
+                        }
+                    }
+                    mz[j] = -(others * inv.unwrap());
+                    let msgz = Message::new(mz);
+                    let info = json!({"message_classes": format!("{} with coordinate {} solving x+sum=0", m.name, j)});
+                    // by signing
+                    let sz = msgz.sign(&mut rng, &kp);
+                    c.distinct(&format!("{}/zero-exponent/signed", key));
+                    let _ = compare(c, &env, "zero-exponent-message:signed", &sz, &mz, Some(true), &info);
+                    // decoded (P, identity)
+                    if let Ok(sd) = dec::<Signature>(&sig_bytes(&p, &id)) {
+                        c.distinct(&format!("{}/zero-exponent/decoded", key));
+                        let _ = compare(c, &env, "zero-exponent-message:decoded(P,1)", &sd, &mz, Some(true), &info);
+                    }
+                    c.count("zero-exponent-messages", 1);
+                }
+            }
+            // signing under a zero window at each of its draws: whatever the stream, the signature
+            // produced by signing verifies on its message
+            {
+                let mut seed = [0u8; 32];
+                rng.fill_bytes(&mut seed);
+                let mut dry = ScriptRng::new(seed);
+                let _ = msg.sign(&mut dry, &kp);
+                for d in 0..dry.draws() {
+                    for width in 1..=2usize {
+                        if d + width > dry.draws() {
+                            continue;
+                        }
+                        let mut sr = ScriptRng::new(seed);
+                        for w in 0..width {
+                            sr.inject(d + w, vec![0u8; dry.log[d + w].len]);
+                        }
+                        let sg = match guard(|| msg.sign(&mut sr, &kp)) {
+                            Ok(x) => x,
+                            Err(pn) => {
+                                c.violation(&format!("C07 sign-panicked N={} case=zero-window loc={}", N, repo_rel(&pn.location)), json!({"draw": d, "panic": pn.message}));
+                                continue;
+                            }
+                        };
+                        c.distinct(&format!("{}/sign-zero-window/{}x{}", key, d, width));
+                        let info = json!({"zero_window": [d, width], "draw_lengths": dry.log.iter().map(|x| x.len).collect::<Vec<_>>()});
+                        let _ = compare(c, &env, "signed-under-zero-window", &sg, &m.vals, Some(true), &info);
+                    }
+                }
+            }
             if rep == 0 && mi == 9 {
                 c.sample(json!({"kind": "attacker bytes", "N": N, "key": k, "message_classes": m.name,
                                 "forged_with_secret_key": hex(&sig_bytes(&p, &mul(&p, &t)))}));
